@@ -257,3 +257,22 @@ def conclude(agg):
     if c["comments_off_checked"] < 500:
         out.append("comments=False was checked fewer than 500 times")
     return out
+
+
+def replay(rec):
+    import random
+    from ..runner import ReplayCtx
+
+    ctx = ReplayCtx()
+    case = rec["case"]
+    d = None if case.get("dialect") in (None, "base") else case["dialect"]
+    import sqlglot
+
+    tree = sqlglot.parse_one(case["sql"], read=d)
+    t0 = sqlglot.parse_one(tree.sql(dialect=d), read=d)
+    out = tree.sql(dialect=d, **case.get("options", {}))
+    print("options:", case.get("options"))
+    print("output :", out[:600])
+    same = canon_noquote(sqlglot.parse_one(out, read=d)) == canon_noquote(t0)
+    print("re-parses to the tree of the default output:", same)
+    return 0 if same else 1
